@@ -524,7 +524,10 @@ impl VariableSet {
         };
 
         // From which context should we unset?
-        let index = Self::index_of_context(scope, &self.contexts);
+        let context_index = Self::index_of_context(scope, &self.contexts);
+        // The stack only contains the contexts in which the variable is
+        // defined, so find the position of the first one to remove.
+        let index = stack.partition_point(|vic| vic.context_index < context_index);
 
         // Return an error if the variable is read-only.
         // Unfortunately, this code fragment does not compile because the
